@@ -239,7 +239,7 @@ def snapshot(g):
     return {k: np.asarray(getattr(g, k).values).tolist() for k in TABLES}
 
 
-def judge_reopened(ctx, fmt, src, opens, inp, key):
+def judge_reopened(ctx, fmt, src, opens, inp, key, opener=None, comparable=None, expect_pre=False, post=None):
     """the SAME source (an in-memory dataset, or a file) is opened once per entry of `opens` (keyword arguments of
     open_grid): every grid is judged by the Lean spec against its own tables; afterwards every earlier grid must
     still show the tables it showed when it was opened (and still meet the spec), and grids opened the same way
@@ -247,12 +247,14 @@ def judge_reopened(ctx, fmt, src, opens, inp, key):
     changed later ones."""
     import uxarray as ux
 
+    opener = opener or (lambda src, kw: ux.open_grid(src, **kw))
+    comparable = comparable or (lambda i, k: opens[i] == opens[k])
     grids, snaps = [], []
     for k, kw in enumerate(opens):
         sub = "" if k == 0 else "reopened/"
         inp_k = dict(inp, opening=k, open_kwargs=kw)
         try:
-            g = ux.open_grid(src, **kw)
+            g = opener(src, kw)
         except Exception as e:
             ctx.case(key + (k,), sample=None)
             ctx.fail(f"C03/supplied/{sub}{fmt}/open-raises/{type(e).__name__}",
@@ -263,7 +265,9 @@ def judge_reopened(ctx, fmt, src, opens, inp, key):
             ctx.hit(f"{fmt}-supplied:" + ",".join(x.split("_conn")[0] for x in supplied))
         else:
             ctx.hit(f"{fmt}-reopened")
-        judge_supplied(ctx, g, dict(inp_k, supplied=supplied), key=key + (k,), prefix=f"C03/supplied/{sub}{fmt}/")
+        judge_supplied(ctx, g, dict(inp_k, supplied=supplied), key=key + (k,), prefix=f"C03/supplied/{sub}{fmt}/", expect_pre=expect_pre)
+        if post:
+            post(g, inp_k, f"C03/supplied/{sub}{fmt}/")
         try:
             snaps.append(snapshot(g))
         except Exception as e:
@@ -287,7 +291,7 @@ def judge_reopened(ctx, fmt, src, opens, inp, key):
     # the first grid once more through the Lean spec (what it reports now, cached derived tables included)
     judge_supplied(ctx, grids[0], dict(inp, opening=0, rejudged_after=len(grids) - 1), key=key + ("rejudged",), prefix=f"C03/supplied/reopened/{fmt}/rejudged/")
     for k in range(1, len(grids)):
-        first = next(i for i in range(k + 1) if opens[i] == opens[k])
+        first = next(i for i in range(k + 1) if i == k or comparable(i, k))
         if first == k:
             continue
         differ = [t for t in TABLES if snaps[k][t] != snaps[first][t]]
@@ -409,6 +413,74 @@ def ugrid_supplied(ctx, m, tag, dialect=None):
                  lambda src: judge_reopened(ctx, "ugrid", src, [{}] * dialect["n_open"], inp, key))
 
 
+TOPO_FORMS = [("std", 0), (-1, 0), (-1, 1), (0, 1), (999999, 1)]
+TOPO_TABLES = ("edge_node_connectivity", "face_edge_connectivity", "edge_face_connectivity", "node_face_connectivity", "face_face_connectivity")
+
+
+def topology_supplied(ctx, m, tag, dialect=None):
+    """explicit topology with caller-supplied OPTIONAL tables: Grid.from_topology(..., fill_value, start_index, **tables) and
+    open_grid(dict).  A drawn subset of {edge_node, face_edge, edge_face, node_face, face_face} is supplied (node_face /
+    edge_face / face_face as the Lean model builds them, edge_node / face_edge as a grid of the same mesh derives them),
+    written - like face_node itself - with a drawn (fill_value, start_index) and storage dtype.  Supplied tables are
+    carried as they are, so the Lean spec must hold on them against the grid's own zero-based face table; the same
+    arrays are used for two or three constructions through both entries (judge_reopened)."""
+    import uxarray as ux
+
+    rng = ctx.rng
+    if dialect is None:
+        fv, start = rng.choice(TOPO_FORMS)
+        k = rng.randint(1, len(TOPO_TABLES))
+        dialect = dict(fill=fv, start=start, store=rng.choice(["i64", "i64", "i32", "f64"]), tables=sorted(rng.sample(TOPO_TABLES, k)),
+                       entries=[rng.choice(["from_topology", "open_grid"]) for _ in range(rng.choice([2, 2, 3]))])
+    inp = dict(mesh=m.describe(), table=m.rows(), tag=tag, topology_supplied=dialect, file="topology:" + tag, use_dual=False)
+    start = dialect["start"]
+    fv = INT_FILL if dialect["fill"] == "std" else dialect["fill"]
+    store = dialect["store"] if fv != INT_FILL else "i64"
+    dt = STORES[store]
+    g0 = meshes.to_grid(m, ux)
+    t = [[int(x) for x in r] for r in g0.face_node_connectivity.values]
+    FE = [[int(x) for x in r] for r in g0.face_edge_connectivity.values]
+    N = [int(x) for x in g0.n_nodes_per_face.values]
+    n, w, n_edge = int(g0.n_node), int(g0.n_max_face_nodes), int(g0.n_edge)
+    mo = common.Tok(ctx.driver.ask("C03.model", enc_in(n, w, t, FE, N, n_edge)))
+    model = dict(node_face_connectivity=mo.rows(), edge_face_connectivity=[list(p) for p in mo.pairs()], face_face_connectivity=mo.rows())
+    std = dict(model, face_node_connectivity=t, face_edge_connectivity=FE,
+               edge_node_connectivity=[[int(x) for x in r] for r in g0.edge_node_connectivity.values])
+
+    def written(name):
+        a = np.asarray(std[name], dtype=np.int64)
+        return np.where(a == INT_FILL, fv, a + start).astype(dt)
+
+    src = dict(node_lon=m.lon.copy(), node_lat=m.lat.copy(), face_node_connectivity=written("face_node_connectivity"),
+               fill_value=dt(fv) if store != "f64" else float(fv), start_index=start)
+    for name in dialect["tables"]:
+        src[name] = written(name)
+    ctx.hit(f"topology-form:fill={dialect['fill']},start={start}")
+    ctx.hit("source-store:" + store + "/arrays")
+    ctx.hit("topology-tables:%d" % len(dialect["tables"]))
+
+    def opener(src, kw):
+        ctx.hit("topology-entry:" + kw["entry"])
+        return ux.Grid.from_topology(**src) if kw["entry"] == "from_topology" else ux.open_grid(src)
+
+    def carried(g, inp_k, prefix):
+        # a supplied table is carried as it is (re-based to zero, standard fill): the grid shows exactly what was written
+        for name in ["face_node_connectivity"] + list(dialect["tables"]):
+            try:
+                got = [[int(x) for x in r] for r in np.asarray(getattr(g, name).values).tolist()]
+            except Exception as e:
+                ctx.fail(f"{prefix}carried/{name}/raises/{type(e).__name__}", f"reading the supplied {name} raises {type(e).__name__}: {e}", inp_k)
+                continue
+            if got != std[name]:
+                ctx.fail(f"{prefix}carried/{name}", f"the supplied {name} is not carried over zero-based with the standard fill value", inp_k,
+                         got[:30], std[name][:30], ["carried"])
+
+    pre0 = ctx.driver.ask("C03.pre", enc_in(n, w, t, FE, N, n_edge)) == "1"
+    key = ("topology", tag, m.rows(), str(sorted(dialect.items(), key=str)))
+    judge_reopened(ctx, "topology", src, [dict(entry=e) for e in dialect["entries"]], inp, key, opener=opener, comparable=lambda i, k: True,
+                   expect_pre=pre0, post=carried)
+
+
 def mpas_reopened(ctx, dialect=None):
     """the MPAS sample as ONE in-memory dataset (connectivity kept int32 or widened to int64) opened as primal, dual, primal"""
     import xarray as xr
@@ -429,7 +501,7 @@ def mpas_reopened(ctx, dialect=None):
     judge_reopened(ctx, "mpas", ds, [{}, {"use_dual": True}, {}], inp, ("mpas-reopened", dialect["store"]))
 
 
-def judge_supplied(ctx, g, inp, key=None, prefix="C03/supplied/"):
+def judge_supplied(ctx, g, inp, key=None, prefix="C03/supplied/", expect_pre=False):
     """file-supplied tables: every clause of the spec is about membership, so it applies as is"""
     d = ctx.driver
     ctx.case(key or ("file", inp["file"], inp["use_dual"]), nontrivial=True, sample=None)
@@ -444,6 +516,11 @@ def judge_supplied(ctx, g, inp, key=None, prefix="C03/supplied/"):
     enc = enc_in(n, w, t, FE, N, n_edge)
     if d.ask("C03.pre", enc) != "1":
         ctx.hit("supplied:pre-fails")
+        if expect_pre:
+            # the tables written into the source meet Pre (decided by Lean before writing): the grid's own face_edge / face_node no longer do
+            ctx.fail(prefix + "pre-lost", "the source's tables meet Incidence.Pre but the grid's face_node / face_edge / n_edge read back do not "
+                     "(entries out of range or an edge in no / more than two faces)", inp, dict(face_node=t[:20], face_edge=FE[:20], n_edge=n_edge), None, ["pre"])
+            return
         ctx.notes.append(f"{ {k: v for k, v in inp.items() if k != 'table'} }: supplied face_edge table does not meet Pre (e.g. its own edge numbering is not tied to face_edge): not judged")
         return
     try:
@@ -499,7 +576,8 @@ def run(ctx):
                 "isel by faces in any order / nodes / edges, chains, copy()) judged against their own face table; MPAS sample (primal and dual) with "
                 "file-supplied tables, synthetic ICON-style sources (triangle meshes, closed and with holes, whose file supplies face_edge / edge_face / "
                 "face_face one-based with 0 or -1 for a missing neighbour) and UGRID sources supplying all incidence tables, stored as int32 / int64 / float64, "
-                "the SAME in-memory dataset (or file) opened 2-3 times (MPAS: primal, dual, primal): every grid judged, earlier grids re-read and re-judged, grids compared and the suite's larger sample grids (up to 3840 faces in quick, 5400 in thorough), all judged by the Lean spec; distinct = "
+                "explicit topologies (Grid.from_topology(**tables) / open_grid(dict)) with drawn subsets of caller-supplied tables written in a drawn (fill_value, start_index) and dtype; "
+                "the SAME in-memory dataset / arrays (or file) opened 2-3 times (MPAS: primal, dual, primal): every grid judged, earlier grids re-read and re-judged, grids compared and the suite's larger sample grids (up to 3840 faces in quick, 5400 in thorough), all judged by the Lean spec; distinct = "
                 "distinct face-node table; non-trivial = more than one face")
     ctx.assumptions = ["dict/list/np.pad semantics of the Python loops are tied to the model only by this differential run",
                        "face_edge_connectivity / n_nodes_per_face are taken from the implementation (their correctness is C02)"]
@@ -537,6 +615,18 @@ def run(ctx):
         if rep < 2:
             dl.update(store="i64", via_file=False, n_open=3, start=rep, fill="std" if rep else -1)
         ugrid_supplied(ctx, m, m.kind + "+ugrid-supplied", dl)
+    for rep in range(ctx.n(10, 60)):
+        rng = ctx.rng
+        m = rng.choice([lambda: meshes.patch(rng.choice([1, 2, 3]), rng.choice([1, 2])).split_some(rng), lambda: meshes.cube_sphere(rng.choice([1, 2])),
+                        lambda: meshes.prism(rng.choice([3, 5, 6])), lambda: meshes.hull(rng.choice([6, 10]), rng).drop_faces(rng, 0.3),
+                        lambda: meshes.fan(rng.choice([4, 6]), full=False), lambda: meshes.archipelago(rng)])()
+        if rng.random() < 0.7:
+            m = m.renumber(rng)
+        dl = None
+        if rep < len(TOPO_FORMS):  # every (fill_value, start_index) form with all tables supplied, through both entries, in every run
+            dl = dict(fill=TOPO_FORMS[rep][0], start=TOPO_FORMS[rep][1], store=["i64", "i32", "i64", "f64", "i32"][rep], tables=sorted(TOPO_TABLES),
+                      entries=["from_topology", "open_grid", "from_topology"])
+        topology_supplied(ctx, m, m.kind + "+topology-supplied", dl)
     mpas_reopened(ctx)
     sample_files(ctx)
 
@@ -559,6 +649,9 @@ def replay(ctx, rp):
         return
     if inp.get("icon_like"):
         icon_like(ctx, m, "replay", inp["icon_like"])
+        return
+    if inp.get("topology_supplied"):
+        topology_supplied(ctx, m, "replay", inp["topology_supplied"])
         return
     if inp.get("ugrid_supplied"):
         ugrid_supplied(ctx, m, "replay", inp["ugrid_supplied"])
